@@ -6,9 +6,14 @@ session is threaded through the lines.
 
     new <orphanCap> <badCap> <genesis id> <genesis root>
     lib <n>                                   the consensus' last irreversible height (veto below it)
-    add <id> <parent> <no> <pre> <res|-> <claimed> <consOk 0|1> <tag> <tx,tx,..|->
-                                              one arrival; the block executes on state root <pre> only, reaching <res>
+    add <id> <parent> <no> <pre> <res|-> <claimed> <consOk 0|1> <tag> <tx,tx,..|-> <e|->
+                                              one arrival from the network; the block executes on state root <pre> only,
+                                              reaching <res>; flags `e`: it fails validation before anything is executed,
+                                              `v`: the fork version in its chain id is not the configured one,
+                                              `s`: the consensus refuses its block signature
+    own <the same fields>                     one block the node produced itself (`usedBState ≠ nil`)
     obs <maxHeight> <id/no,..|-> <tx,..|->    the observable state over this universe
+    law                                       the theorems' hypotheses on the blocks of this session so far
 
 Ids, roots and tx hashes are fixed-width hex tokens (`-` = none/empty). Core only. -/
 open Aergo Aergo.DriverLib Aergo.Chain
@@ -38,12 +43,16 @@ def pPair (s : String) : Option (Nat × Nat) :=
   | [a, b] => do pure (← hexNat a, ← b.toNat?)
   | _ => none
 
-def showMsgs (out : List Msg) : String :=
-  let dels := out.filterMap fun | .del b => some (tok b) | _ => none
-  let puts := out.filterMap fun | .put t => some (tok t) | _ => none
-  let syncs := out.filterMap fun | .sync n => some (toString n) | _ => none
-  let nots := out.filterMap fun | .notify b => some (tok b) | _ => none
-  s!"del={joinOr dels ","} put={joinOr puts ","} sync={joinOr syncs ","} notify={joinOr nots ","}"
+def showMsg : Msg → String
+  | .del b => s!"d:{tok b}"
+  | .put t => s!"p:{tok t}"
+  | .sync n => s!"s:{n}"
+  | .notify b => s!"n:{tok b}"
+  | .upd b => s!"u:{tok b}"
+
+/-- The messages in the order they were sent (the harness sorts each run of `MemPoolPut`s: they come out of a Go map;
+the model sends them sorted). -/
+def showMsgs (out : List Msg) : String := s!"msgs={joinOr (out.map showMsg) ","}"
 
 def showRes : Res → String
   | .ok => "ok" | .cached => "cached" | .err => "err" | .reorgErr => "reorg"
@@ -65,34 +74,58 @@ def obs (N : Node) (maxH : Nat) (ids : List (Nat × Nat)) (txs : List Nat) : Str
   let tx := txs.map (showTx N)
   let orph := N.orphans.map fun e => s!"{tok e.1}:{tok e.2.id}"
   let bad := N.bad.map fun e => tok e.1
-  s!"best={tok N.best.id}/{N.best.no} latest={N.latest} root={tok N.sdbRoot} marker={bit N.marker.isSome} " ++
+  let rq := String.join (ids.map fun p => bit (rcptByHash N p.1))
+  let rn := String.join ((List.range (maxH + 1)).map fun h => bit (rcptByNo N h))
+  s!"best={tok N.best.id}/{N.best.no} latest={N.latest} lkey={N.latestKey} root={tok N.sdbRoot} marker={bit N.marker.isSome} " ++
   s!"byno={joinOr byno ","} blocks={if blocks.isEmpty then "-" else blocks} tx={joinOr tx ","} " ++
-  s!"rcpt={if rc.isEmpty then "-" else rc} orph={joinOr orph ","} bad={joinOr bad ","}"
+  s!"rcpt={if rc.isEmpty then "-" else rc} rq={if rq.isEmpty then "-" else rq} rn={rn} orph={joinOr orph ","} bad={joinOr bad ","}"
 
-def step (s : Option Node) (line : String) : Option Node × String :=
+structure Sess where
+  N : Node
+  seen : List Block     -- genesis and every block offered so far
+
+def pBlock (id parent no pre res claimed cons tag txs fl : String) : Option Block :=
+  match hexNat id, hexNat parent, no.toNat?, hexNat pre, hexNat res, hexNat claimed, hexNat tag, pList txs with
+  | some id, some parent, some no, some pre, some res, some claimed, some tag, some txs =>
+    if (cons != "0" && cons != "1") || !(fl == "-" || fl.toList.all (fun c => c == 'e' || c == 'v' || c == 's')) then none else
+    some { id := id, parent := parent, no := no, txs := txs, claimed := claimed, consOk := cons == "1",
+           pre := pre, res := if res = 0 then none else some res, tag := tag, early := fl.toList.contains 'e',
+           verBad := fl.toList.contains 'v', sigBad := fl.toList.contains 's' }
+  | _, _, _, _, _, _, _, _ => none
+
+def lawLine (l : List Block) : String :=
+  if !idsKeyed l then "ids-forged"
+  else if lawOk l then "ok" else "execlaw-violated"
+
+def step (s : Option Sess) (line : String) : Option Sess × String :=
   match words line, s with
   | ["new", oc, bc, gid, groot], _ =>
     match oc.toNat?, bc.toNat?, hexNat gid, hexNat groot with
     | some oc, some bc, some gid, some groot =>
-      (some (genesis { id := gid, parent := 0, no := 0, txs := [], claimed := groot } oc bc), "ok")
+      let g : Block := { id := gid, parent := 0, no := 0, txs := [], claimed := groot }
+      (some ⟨genesis g oc bc, [g]⟩, "ok")
     | _, _, _, _ => (s, "bad-op")
-  | ["lib", n], some N =>
+  | ["lib", n], some S =>
     match n.toNat? with
-    | some n => (some { N with lib := n }, "ok")
+    | some n => (some { S with N := { S.N with lib := n } }, "ok")
     | none => (s, "bad-op")
-  | ["add", id, parent, no, pre, res, claimed, cons, tag, txs], some N =>
-    match hexNat id, hexNat parent, no.toNat?, hexNat pre, hexNat res, hexNat claimed, hexNat tag, pList txs with
-    | some id, some parent, some no, some pre, some res, some claimed, some tag, some txs =>
-      if cons != "0" && cons != "1" then (s, "bad-op") else
-      let b : Block := { id := id, parent := parent, no := no, txs := txs, claimed := claimed, consOk := cons == "1",
-                         pre := pre, res := if res = 0 then none else some res, tag := tag }
-      let (r, N') := addBlock tableExec N b
-      (some N', s!"{showRes r} {showMsgs N'.out}")
-    | _, _, _, _, _, _, _, _ => (s, "bad-op")
-  | ["obs", mh, ids, txs], some N =>
+  | ["add", id, parent, no, pre, res, claimed, cons, tag, txs, fl], some S =>
+    match pBlock id parent no pre res claimed cons tag txs fl with
+    | some b =>
+      let (r, N') := addBlock tableExec S.N b
+      (some ⟨N', S.seen ++ [b]⟩, s!"{showRes r} {showMsgs N'.out}")
+    | none => (s, "bad-op")
+  | ["own", id, parent, no, pre, res, claimed, cons, tag, txs, fl], some S =>
+    match pBlock id parent no pre res claimed cons tag txs fl with
+    | some b =>
+      let (r, N') := addOwn tableExec S.N b
+      (some ⟨N', S.seen ++ [b]⟩, s!"{showRes r} {showMsgs N'.out}")
+    | none => (s, "bad-op")
+  | ["obs", mh, ids, txs], some S =>
     match mh.toNat?, (commas ids).mapM pPair, pList txs with
-    | some mh, some ids, some txs => (s, obs N mh ids txs)
+    | some mh, some ids, some txs => (s, obs S.N mh ids txs)
     | _, _, _ => (s, "bad-op")
+  | ["law"], some S => (s, lawLine S.seen)
   | _, _ => (s, "bad-op")
 
 end C05Drv
